@@ -13,6 +13,10 @@ func (u *Unit) checkFrame(ct *Contract, r retInfo, alloc0 Term) {
 	if !ct.HasFrame {
 		return
 	}
+	if ct.FrameTrusted {
+		u.note("frame of " + u.FnName + " is taken from a trusted declaration and not checked against its body")
+		return
+	}
 	allowed := map[string]bool{}
 	for _, f := range ct.Frame {
 		for _, h := range u.resolveFrameItem(ct, f) {
